@@ -25,7 +25,7 @@ ASSUMPTIONS = [
     'Bio.SeqUtils.molecular_weight is shared with the tool (trusted third party); peptides '
     'within 1e-6 Da of the mass threshold may go either way',
 ]
-BUDGET = {'quick': 40, 'thorough': 1200}
+BUDGET = {'quick': 120, 'thorough': 1500}
 EXHAUSTIVE = {'quick': True, 'thorough': True}
 EXHAUSTIVE_NOTE = {
     'quick': 'rule semantics: all strings up to length 4-5 over each rule\'s reduced alphabet',
@@ -99,6 +99,10 @@ def strategy_(draw, tier):
                 k = d.randint(2, len(p) - 1)
                 p = p[:k] + '*' + p[k + 1:]
             t['protein'] = p
+    if d.chance(0.35):
+        ref['extra_proteins'] = [[d.randint(0, 4), f'ENSP0000008888{i}.1', f'ENST0000008888{i}.1',
+            'ENSG00000088888.1', 'ORPHAN', 'M' + d.letters(alphabet, d.randint(8, 40))]
+            for i in range(d.randint(1, 2))]
     params = dict(rule=rule, exception=exception, miscleavage=d.randint(0, 3),
         min_length=d.randint(1, 8), max_length=d.randint(8, 30),
         min_mw=float(d.choice([0, 300, 500, 500, 800])))
